@@ -141,6 +141,11 @@ static struct {
 } oobs[MAXOOB];
 
 /* ---- control API (called through ctypes) ---- */
+static int vt_force_if = 0;
+static long n_if_serial = 0;
+/* 1: a region whose `if(...)` clause evaluated to false (libgomp is then asked for a team of 1) is run with the full team anyway */
+void vt_set_force_if(int v) { vt_force_if = v; }
+long vt_if_serial(void) { return n_if_serial; }
 void vt_set_team(int t) { vt_team = t < 1 ? 1 : (t > MAXT ? MAXT : t); }
 void vt_set_detect(int d) { detect = d; }
 void vt_set_log_points(int d) {
@@ -149,6 +154,7 @@ void vt_set_log_points(int d) {
 }
 void vt_reset_stats(void) {
     n_conflicts = n_regions = n_regions_multi = total_access = n_oob = n_switches = 0;
+    n_if_serial = 0;
     n_confs = 0;
     n_conf_addr = 0;
     max_chunks = 0;
@@ -312,6 +318,10 @@ static void tramp(int tid) {
 }
 void GOMP_parallel(void (*fn)(void *), void *data, unsigned nthreads, unsigned flags) {
     int T = nthreads ? (int)nthreads : vt_team;
+    if (nthreads == 1 && !in_region) {
+        n_if_serial++;
+        if (vt_force_if) T = vt_team;
+    }
     if (T > MAXT) T = MAXT;
     if (in_region || T == 1) { /* nested or single-thread team: run inline */
         int st = cur_team, si = cur_tid, ir = in_region;
